@@ -22,7 +22,10 @@ TE_OK = [b"chunked", b"Chunked", b"CHUNKED", b"chunked ,gzip", b"gzip, chunked",
 TE_BAD = [b"gzip", b"identity", b"chunkedx", b"xchunked", b"chun ked", b"", b"chunked;q=1", b"gzip, deflate", b"chunke", b"chunked x", b"x chunked",
           b"chunkedchunked", b"chchunked", b"\"chunked\"", b"chunked\x00", b"\x00chunked", b"chunked\x0bx", b"c,h,u,n,k,e,d"]
 CL_OK = [b"0", b"3", b"5", b"10", b"03", b"3x", b"x3", b"1 2", b"3, 3", b"3,4", b"9223372036854775807", b"+3", b"-1", b"0x10", b"3\x005"]
-CL_BAD = [b"", b"abc", b"-", b"99999999999999999999", b"9223372036854775808", b"\x00", b"+", b"x"]
+CL_BAD = [b"", b"abc", b"-", b"99999999999999999999", b"9223372036854775808", b"\x00", b"+", b"x",
+          # values that become small after wrapping past 2^64 / 2^65 / 2^63 (an overflow check after the multiply-add would accept them)
+          b"18446744073709551621", b"18446744073709551616", b"36893488147419103237", b"18446744073709551615", b"9223372036854775813",
+          b"00000000000000000000018446744073709551621", b"340282366920938463463374607431768211461"]
 URI_HOSTS = [None, None, None, b"a", b"www.example.com", b"Example.COM", b"example.com.", b"ex_ample-1.org", b"1.2.3.4", b"[::1]", b"[1:2::3]", b"a..b",
              b"-", b"h%41st", b"a_b", b"x" * 63, b"x" * 64, b"%5b::1x", b"[::1", b"a%20b", b"[::g]"]
 HOSTH = [b"a", b"www.example.com", b"Example.COM", b"EXAMPLE.com", b"example.com.", b"ex_ample-1.org", b"1.2.3.4", b"[::1]", b"[1:2::3]", b"[::ffff:1.2.3.4]",
